@@ -98,9 +98,12 @@ def fold_replies(L, repo):
     return True
 
 
-def r1_one_reply(L, repo):
-    folded = fold_replies(L, repo)
-    L.extra["c05_receive_path_folded"] = bool(folded)
+def r1_one_reply(L, repo, force_shape=False):
+    if force_shape:
+        folded = False
+    else:
+        folded = fold_replies(L, repo)
+        L.extra["c05_receive_path_folded"] = bool(folded)
     ci, fd = repo.need_method("ctrl_if", "CTRLInterface", "handle_rx")
     fn = "CTRLInterface.handle_rx"
     L.unit(FC)
@@ -220,7 +223,7 @@ def r1_one_reply(L, repo):
     return DATA, REMOTE
 
 
-def r2_format(L, repo):
+def r2_format(L, repo, force_shape=False):
     spec = json.load(open(os.path.join(VERIF, "spec", "trxc.json")))
     ci, fd = repo.need_method("ctrl_if", "CTRLInterface", "send_response")
     fn = "CTRLInterface.send_response"
@@ -230,7 +233,7 @@ def r2_format(L, repo):
         raise AnalysisError("send_response signature changed")
     _, REQ, REMOTE, CODE, PAR = ps
     cfg = CFG(fd)
-    folded = bool(L.extra.get("c05_receive_path_folded"))
+    folded = bool(L.extra.get("c05_receive_path_folded")) and not force_shape
     ins = [c for c in find_calls(fd, attr="insert") if canon(c.func.value) == REQ]
     if not folded:
         # shape-based fallback (the reply text is otherwise decided by the fold in R1)
@@ -351,6 +354,12 @@ def ret_kind_r(v, repo, ci, depth=0):
 
 
 def r3_dispatch_returns(L, repo):
+    """R3: every command gets a status. Control-flow part: no path of either dispatcher falls off its end. Value part,
+    decided by folding both dispatchers for every documented command form (and an unknown verb): the common handler
+    answers an int or (int, [str, ...]); the transceiver-specific handler an int or None (= not handled here); its
+    non-None answer takes precedence and suppresses the common handler's effect; unknown verbs are acknowledged with 0."""
+    from cmdfold import fold_parse_cmd, fold_fake_cmd
+    spec = json.load(open(os.path.join(VERIF, "spec", "trxc.json")))
     ci, pc = repo.need_method("ctrl_if_trx", "CTRLInterfaceTRX", "parse_cmd")
     L.unit(FT)
     fn = "CTRLInterfaceTRX.parse_cmd"
@@ -359,56 +368,51 @@ def r3_dispatch_returns(L, repo):
     rets, implicit = returns(cfg)
     L.require("C05.R3", FT, fn, "paths falling off the end without a status", 0, len(implicit),
               line=implicit[0].line if implicit else None)
-    L.floor("C05.R3", "return statements in parse_cmd", len(rets), 10)
-    intnames = set()
-    # names that hold ints: single-def from int(...) or from pick_hdr_ver / ctrl_cmd_handler result
-    for n in ast.walk(pc):
-        if isinstance(n, ast.Assign) and len(n.targets) == 1 and isinstance(n.targets[0], ast.Name):
-            v = canon(n.value)
-            if v.startswith("int(") or ".pick_hdr_ver(" in v:
-                intnames.add(n.targets[0].id)
-            if ".ctrl_cmd_handler(" in v:
-                intnames.add(n.targets[0].id)
-    # names all of whose assignments are statuses
-    assigned = {}
-    for n in ast.walk(pc):
-        if isinstance(n, ast.Assign) and len(n.targets) == 1 and isinstance(n.targets[0], ast.Name):
-            assigned.setdefault(n.targets[0].id, []).append(ret_kind(n.value))
-    for nm, kinds in assigned.items():
-        if kinds and all(k in ("int", "tuple") for k in kinds):
-            intnames.add(nm)
-    for node, val in rets:
-        k = ret_kind_r(val, repo, ci)
-        ok = k in ("int", "tuple") or (k.startswith("name:") and k[5:] in intnames)
-        L.ob("C05.R3", FT, fn, "return `%s` is a status (int) or (status, results)" % (canon(val) if val else "None"),
-             "int | (int, list)", k, ok, node.line)
-    # unknown verbs: the final alternative returns 0
-    last = pc.body[-1]
-    tail = None
-    if isinstance(last, ast.If) and last.orelse:
-        tail = [canon(s.value) for s in last.orelse if isinstance(s, ast.Return)]
-    elif isinstance(last, ast.Return):
-        tail = [canon(last.value)]
-    L.require("C05.R3", FT, fn, "unknown verbs are acknowledged with status 0", ["0"], tail)
-    # the custom handler result takes precedence iff not None
-    first = [s for s in pc.body if not (isinstance(s, ast.Expr) and isinstance(s.value, ast.Constant))][:2]
-    t = [canon(s) for s in first]
-    ok = len(t) == 2 and t[0].endswith("= self.trx.ctrl_cmd_handler(%s)" % params(pc)[1]) and \
-        re.fullmatch(r"if (\w+) is not None:\n    return \1", t[1]) is not None
-    L.ob("C05.R3", FT, fn, "transceiver-specific handler is consulted first; None means unhandled",
-         "res = self.trx.ctrl_cmd_handler(request); if res is not None: return res", t, ok)
-    ci, ch = repo.need_method("fake_trx", "FakeTRX", "ctrl_cmd_handler")
+    ci2, ch = repo.need_method("fake_trx", "FakeTRX", "ctrl_cmd_handler")
     L.unit(FF)
     fn2 = "FakeTRX.ctrl_cmd_handler"
     L.fn(FF, fn2)
-    cfg2 = CFG(ch)
-    rets2, implicit2 = returns(cfg2)
+    rets2, implicit2 = returns(CFG(ch))
     L.require("C05.R3", FF, fn2, "paths falling off the end (would be 'unhandled' by accident)", 0, len(implicit2))
-    for node, val in rets2:
-        k = ret_kind_r(val, repo, ci)
-        L.ob("C05.R3", FF, fn2, "return `%s` is a status or None (unhandled)" % (canon(val) if val else "None"),
-             "int | None", k, k in ("int", "none"), node.line)
-    L.floor("C05.R3", "return statements in ctrl_cmd_handler", len(rets2), 10)
+
+    def status_kind(v):
+        if isinstance(v, bool):
+            return "bool"
+        if isinstance(v, int):
+            return "int"
+        if isinstance(v, tuple) and len(v) == 2 and isinstance(v[0], int) and not isinstance(v[0], bool) \
+                and isinstance(v[1], list) and all(isinstance(x, str) for x in v[1]):
+            return "tuple"
+        if v is None:
+            return "none"
+        return "other: %r" % (v,)
+    n = 0
+    forms = []
+    for verb, e in sorted(spec["verbs"].items()):
+        for argc in e.get("argc", []) + ([e["min"], e["min"] + 2] if e.get("min") is not None else []):
+            forms.append([verb] + ["1"] * argc)
+    forms.append(["NO_SUCH_VERB", "1"])
+    for req in forms:
+        f = fold_fake_cmd(repo, req)
+        k = status_kind(f.ret) if f.raised is None else "raises %s" % f.raised
+        n += 1
+        L.ob("C05.R3", FF, fn2, "CMD %s: the transceiver-specific handler answers a status or None (not handled here)" % " ".join(req),
+             "int | None", k, k in ("int", "none"), ch.lineno)
+        if f.raised is None and f.ret is None:
+            g = fold_parse_cmd(repo, req)
+            k = status_kind(g.ret) if g.raised is None else "raises %s" % g.raised
+            L.ob("C05.R3", FT, fn, "CMD %s: the common handler answers a status (int) or (status, [results])" % " ".join(req),
+                 "int | (int, [str])", k, k in ("int", "tuple"), pc.lineno)
+    L.floor("C05.R3", "command forms folded through both dispatchers", n, 18)
+    g = fold_parse_cmd(repo, ["NO_SUCH_VERB", "1"])
+    L.require("C05.R3", FT, fn, "unknown verbs are acknowledged with status 0 and have no effect", (0, []), (g.ret, g.calls))
+    # precedence of the transceiver-specific handler
+    for req in (["POWEROFF"], ["RXTUNE", "1"], ["SETFH", "1", "0", "10", "20"], ["NO_SUCH_VERB"]):
+        base = fold_parse_cmd(repo, ["NO_SUCH_VERB"])
+        g = fold_parse_cmd(repo, req, custom=-7)
+        L.ob("C05.R3", FT, fn, "CMD %s: a status from the transceiver-specific handler is final (the common handler does nothing)" % " ".join(req),
+             (-7, "no effect"), (g.ret, "no effect" if (not g.calls and g.stores() == base.stores()) else g.calls or "stores"),
+             g.ret == -7 and not g.calls and g.stores() == base.stores(), pc.lineno)
 
 
 def verify_sites(fd):
@@ -430,7 +434,57 @@ def verify_sites(fd):
 
 
 def r4_verb_table(L, repo, tier):
+    """R4: which commands the transceiver recognises. Decided by folding both handlers (transceiver-specific first,
+    then the common one) for every candidate verb and 0..8 arguments: a form is recognised when it has an effect, a
+    result or a status other than the unknown-verb acknowledgement. Falls back to the verify_cmd call-site scan when
+    the handlers do not fold."""
     spec = json.load(open(os.path.join(VERIF, "spec", "trxc.json")))
+    try:
+        got = _verb_table_fold(L, repo, spec)
+        L.structural("C05.R4 verb/arity table read off the verify_cmd call sites", _verb_table_sites, L, repo, tier, spec)
+        return got
+    except AnalysisError as e:
+        L.extra["c05_r4_fold"] = "not folded: %s" % str(e)[:120]
+    return _verb_table_sites(L, repo, tier, spec)
+
+
+def _verb_table_fold(L, repo, spec):
+    from cmdfold import accepted_forms
+    cands = set(spec["verbs"])
+    for modn in ("ctrl_if_trx", "fake_trx"):
+        m = repo.mod(modn)
+        L.unit(m.rel)
+        for n in ast.walk(m.tree):
+            if isinstance(n, ast.Constant) and isinstance(n.value, str) and re.fullmatch(r"[A-Z][A-Z0-9_]{2,20}", n.value):
+                cands.add(n.value)
+    MAXA = 8
+    got = {}
+    for verb in sorted(cands):
+        ok, problems = accepted_forms(repo, verb, MAXA)
+        for argc, why in sorted(problems.items()):
+            L.ob("C05.R4", FT, "verb table", "CMD %s with %d argument(s): the handler reads only arguments its arity guarantees" % (verb, argc),
+                 "no IndexError", why, False)
+        if not ok:
+            continue
+        d = {}
+        lo = min(ok)
+        if ok == set(range(lo, MAXA + 1)) and MAXA in ok and len(ok) > 2:
+            d["min"] = lo
+        else:
+            d["argc"] = sorted(ok)
+        got[verb] = d
+    L.floor("C05.R4", "TRXC verbs recognised by folding the handlers", len(got), 14)
+    for verb in sorted(set(got) | set(spec["verbs"])):
+        if verb not in spec["verbs"]:
+            L.ob("C05.R4", FT, "verb table", "additional TRXC verb %s (not in the documented set)" % verb,
+                 "recorded", got.get(verb), True)
+            continue
+        L.require("C05.R4", FT, "verb table", "TRXC verb %s: accepted argument counts" % verb,
+                  spec["verbs"].get(verb), got.get(verb))
+    return got
+
+
+def _verb_table_sites(L, repo, tier, spec):
     table = {}
     nsites = 0
     for modn, cls, meth, F in (("ctrl_if_trx", "CTRLInterfaceTRX", "parse_cmd", FT),
@@ -583,20 +637,13 @@ def r4_trxcon_sibling(L, repo, got):
 
 
 def r5_effects(L, repo):
+    """R5: status and effect of the stateless commands, decided by folding the WHOLE handler (cmdfold) per command:
+    SETFORMAT for every request -3..18, MEASURE with/without a measurement interface, RXTUNE/TXTUNE (kHz -> Hz),
+    SETPOWER, NOMTXPOWER."""
+    from cmdfold import fold_parse_cmd
     ci, pc = repo.need_method("ctrl_if_trx", "CTRLInterfaceTRX", "parse_cmd")
     fn = "CTRLInterfaceTRX.parse_cmd"
     REQ = params(pc)[1]
-    cfg = CFG(pc)
-
-    def branch(verb, argc):
-        want = ("self.verify_cmd(%s, %r, %d)" % (REQ, verb, argc), True)
-        for n in ast.walk(pc):
-            if isinstance(n, ast.If) and want in literals(n.test, True):
-                return n
-        raise AnalysisError("parse_cmd: %s branch vanished" % verb)
-    # SETFORMAT: the branch is comparison-only code over the requested version; fold it for every
-    # request in -3..18 with set_hdr_ver / pick_hdr_ver evaluated from their own source
-    br = branch("SETFORMAT", 1)
     dci = repo.need_class("data_if", "DATAInterface")
     dmod = repo.mod("data_if")
     known = list(fold(repo, repo.mod("data_msg"), ast.parse("Msg.KNOWN_VERSIONS", mode="eval").body))
@@ -604,25 +651,9 @@ def r5_effects(L, repo):
     c2, pick = repo.find_method(dci, "pick_hdr_ver")
     if setm is None or pick is None:
         raise AnalysisError("set_hdr_ver/pick_hdr_ver vanished")
-    cmod = repo.mod("ctrl_if_trx")
-    cci = repo.need_class("ctrl_if_trx", "CTRLInterfaceTRX")
     for v in range(-3, 19):
-        calls = []
-
-        def h_set(args, calls=calls):
-            calls.append(("set", args[0]))
-            return Ev(repo, dmod, self_cls=dci).call_func(setm, dmod, [("self", "<self>"), (params(setm)[1], args[0])], self_cls=dci)
-
-        def h_pick(args, calls=calls):
-            calls.append(("pick", args[0]))
-            return Ev(repo, dmod, self_cls=dci).call_func(pick, dmod, [("self", "<self>"), (params(pick)[1], args[0])], self_cls=dci)
-        e = Ev(repo, cmod, env={REQ: ["SETFORMAT", str(v)], "self.trx.data_if._hdr_ver": 0}, self_cls=cci)
-        e.hooks = {"self.trx.data_if.set_hdr_ver": h_set, "self.trx.data_if.pick_hdr_ver": h_pick}
-        try:
-            r = e.run_block(br.body)
-        except (Unknown, Raised) as ex:
-            raise AnalysisError("SETFORMAT branch does not fold for %d: %s" % (v, ex))
-        got = r[1] if isinstance(r, tuple) else None
+        f = fold_parse_cmd(repo, ["SETFORMAT", str(v)], hdr_ver=0)
+        got = f.ret if f.raised is None else "raises %s" % f.raised
         if v < 0 or v > 15:
             want = -1
         elif v in known:
@@ -630,11 +661,13 @@ def r5_effects(L, repo):
         else:
             lower = [k for k in known if k <= v]
             want = max(lower) if lower else -1
-        applied = [a for k, a in calls if k == "set"]
+        applied = [c_[1][0] for c_ in f.calls if c_[0] == "set_hdr_ver"]
         L.require("C05.R5", FT, fn, "SETFORMAT %d answers the applied version / the highest supported lower one / -1 when out of range" % v,
-                  want, got, line=br.lineno)
+                  want, got, line=pc.lineno)
         L.ob("C05.R5", FT, fn, "SETFORMAT %d: set_hdr_ver() is attempted only for a version inside 0..15" % v,
-             [v] if 0 <= v <= 15 else [], applied, applied == ([v] if 0 <= v <= 15 else []), br.lineno)
+             [v] if 0 <= v <= 15 else [], applied, applied == ([v] if 0 <= v <= 15 else []), pc.lineno)
+        L.require("C05.R5", FT, fn, "SETFORMAT %d: header version in force afterwards" % v, v if v in known else 0,
+                  getattr(f, "hdr_ver", None), line=pc.lineno)
     # set_hdr_ver / pick_hdr_ver folded over the declared 4-bit domain
     L.unit(rel("data_if"))
     vmax = fold(repo, repo.mod("data_msg"), ast.parse("Msg.CHDR_VERSION_MAX", mode="eval").body)
@@ -659,35 +692,28 @@ def r5_effects(L, repo):
     L.require("C05.R5", rel("data_if"), "DATAInterface.set_hdr_ver", "applied version is stored",
               [params(setm)[1]], [canon(s.value) for s in st])
     # MEASURE
-    def ev(st):
-        if isinstance(st, ast.Return):
-            return ("ret", canon(st.value, subst))
-        return None
-    br = branch("MEASURE", 1)
-    subst = branch_subst(br.body)
-    W = Walker(ev, subst)
-    atoms, rows = W.table(br.body)
-    if atoms == ["None is self.trx.pwr_meas"]:
-        L.require("C05.R5", FT, fn, "MEASURE answers -1 without a power-measurement interface, else (0, [dBm])",
-                  {(True,): (("ret", "-1"),),
-                   (False,): (("ret", "(0, [str(self.trx.pwr_meas.measure(int(%s[1]) * 1000))])" % REQ),)}, rows)
-    else:
-        L.require("C05.R5", FT, fn, "MEASURE atoms", ["None is self.trx.pwr_meas"], atoms)
+    f = fold_parse_cmd(repo, ["MEASURE", "941600"], {"pwr_meas": None})
+    L.require("C05.R5", FT, fn, "MEASURE without a power-measurement interface answers -1", (-1, []),
+              (f.ret, [c_ for c_ in f.calls if c_[0] == "measure"]))
+    f = fold_parse_cmd(repo, ["MEASURE", "941600"])
+    L.require("C05.R5", FT, fn, "MEASURE <kHz> measures at kHz x 1000 and answers (0, [dBm as text])",
+              ((0, ["-77"]), [("measure", (941600000,), ())]),
+              ((f.ret[0], list(f.ret[1])) if isinstance(f.ret, tuple) and len(f.ret) == 2 else f.ret, [c_ for c_ in f.calls if c_[0] == "measure"]))
     # tuning commands store kHz * 1000
     for verb, attr in (("RXTUNE", "_rx_freq"), ("TXTUNE", "_tx_freq")):
-        br = branch(verb, 1)
-        st = [canon(s) for s in br.body if isinstance(s, ast.Assign)]
-        rt = [canon(s.value) for s in br.body if isinstance(s, ast.Return)]
+        f = fold_parse_cmd(repo, [verb, "935800"])
         L.require("C05.R5", FT, fn, "%s stores the frequency (kHz -> Hz) and answers 0" % verb,
-                  (["self.trx.%s = int(%s[1]) * 1000" % (attr, REQ)], ["0"]), (st, rt))
-    br = branch("NOMTXPOWER", 0)
-    rt = [canon(s.value) for s in br.body if isinstance(s, ast.Return)]
-    L.require("C05.R5", FT, fn, "NOMTXPOWER answers (0, [nominal power])", ["(0, [str(self.trx.tx_power_base)])"], rt)
-    br = branch("SETPOWER", 1)
-    subst = branch_subst(br.body)
-    st = [(canon(s.targets[0]), canon(s.value, subst)) for s in br.body if isinstance(s, ast.Assign)
-          and not isinstance(s.targets[0], ast.Name)]
-    L.require("C05.R5", FT, fn, "SETPOWER stores the attenuation", [("self.trx.tx_att_base", "int(%s[1])" % REQ)], st)
+                  (0, 935800000), (f.ret, f.stores().get(attr)))
+    f = fold_parse_cmd(repo, ["NOMTXPOWER"], {"tx_power_base": 37})
+    L.require("C05.R5", FT, fn, "NOMTXPOWER answers (0, [nominal power])", (0, ["37"]),
+              (f.ret[0], list(f.ret[1])) if isinstance(f.ret, tuple) and len(f.ret) == 2 else f.ret)
+    f = fold_parse_cmd(repo, ["SETPOWER", "20"])
+    L.require("C05.R5", FT, fn, "SETPOWER stores the attenuation and answers 0", (0, 20), (f.ret, f.stores().get("tx_att_base")))
+    # a malformed number is reported by ValueError (turned into status -1 by handle_rx), with no effect
+    for req in (["RXTUNE", "abc"], ["SETPOWER", "x"], ["SETFORMAT", "1.5"], ["MEASURE", ""], ["SETFH", "a", "0", "1", "2"]):
+        f = fold_parse_cmd(repo, req)
+        L.ob("C05.R5", FT, fn, "CMD %s: a non-numeric argument raises ValueError before any effect" % " ".join(req),
+             "ValueError, no calls", (f.raised, f.calls), f.raised == "ValueError" and not f.calls)
 
 
 def _call_rows(fd, match, loops="body"):
@@ -827,6 +853,9 @@ def run(L, tier):
     repo = Repo(L.repo)
     L.stage(r1_one_reply, L, repo)
     L.stage(r2_format, L, repo)
+    if L.extra.get("c05_receive_path_folded"):
+        L.structural("C05.R1 decision table and reply form of handle_rx", r1_one_reply, L, repo, True)
+        L.structural("C05.R2 composition of the reply text in send_response", r2_format, L, repo, True)
     L.stage(r3_dispatch_returns, L, repo)
     got = L.stage(r4_verb_table, L, repo, tier)
     L.stage(r4_trxcon_sibling, L, repo, got)
